@@ -2,6 +2,7 @@ package gen
 
 import (
 	"crypto/rand"
+	"crypto/sha1"
 	"crypto/x509"
 	"crypto/x509/pkix"
 	"encoding/asn1"
@@ -107,6 +108,7 @@ type CertSpec struct {
 	CDP        []string `json:"cdp,omitempty"`
 	OCSP       []string `json:"ocsp,omitempty"`
 	OCSPSigner bool     `json:"ocspsigner,omitempty"` // EKU OCSPSigning
+	ForceSKI   bool     `json:"ski,omitempty"`        // subjectKeyIdentifier also on a non-CA certificate
 	NoEKU      bool     `json:"noeku,omitempty"`
 }
 
@@ -187,6 +189,14 @@ func Issue(spec CertSpec, parent *Cert) *Cert {
 		tpl.KeyUsage = x509.KeyUsageDigitalSignature
 	default:
 		panic("bad key usage " + spec.KeyUsage)
+	}
+	if spec.ForceSKI {
+		pub, err := x509.MarshalPKIXPublicKey(key.Signer.Public())
+		if err != nil {
+			panic(err)
+		}
+		h := sha1.Sum(pub)
+		tpl.SubjectKeyId = h[:]
 	}
 	if spec.OCSPSigner {
 		tpl.ExtKeyUsage = []x509.ExtKeyUsage{x509.ExtKeyUsageOCSPSigning}
